@@ -225,14 +225,15 @@ theorem C18_oneshot_interrupt_does_not_latch (i : Nat) (b : Bool) (st : Status) 
   simp [stopInv, decTerminate]
 
 /-- an unlatched one-shot **mirrors its child** and latches exactly when the child completes in a way covered by the
-    policy (SUCCESS, or also FAILURE under ON_COMPLETION) -/
+    policy (SUCCESS, or also FAILURE under ON_COMPLETION). `hv`: the child's tick answered a status (always the case
+    under `ValidEnv`, `tickF_good`); a child answering INVALID makes the decorator INVALID and is stopped once more. -/
 theorem C18_oneshot_unlatched_tick (f : Nat) (e : Env) (w : Store) (i : Nat) (b : Bool) (st : Status) (c c1 : Node)
-    (w1 : Store) (tr1 : List Ev) (hc : tickF f e w c = .ok (c1, w1, tr1)) :
+    (w1 : Store) (tr1 : List Ev) (hc : tickF f e w c = .ok (c1, w1, tr1)) (hv : c1.status ≠ .invalid) :
     tickF (f + 1) e w (dec i (.oneShot b none) st c) =
       .ok (dec i (.oneShot b (if c1.status = .success ∨ (b = true ∧ c1.status = .failure) then some c1.status else none))
              c1.status c1, w1, [.enter i] ++ tr1 ++ [.yld i c1.status]) := by
   simp only [tickF, decRun, decInit, ite_self, hc, bind, Except.bind, decPublish, pure, Except.pure, decUpdate]
-  cases hs : c1.status <;> cases b <;> simp [decTerminate, hs]
+  cases hs : c1.status <;> cases b <;> simp_all [decTerminate]
 /-! ### the oneshot idiom -/
 namespace C18
 /-- the flag-setting leaf of the oneshot idiom -/
